@@ -247,6 +247,9 @@ pub fn check(c: &Case, obs: &mut Obs) -> R {
     };
     obs.label(st.kind());
     obs.label(format!("feature/{}", fsig));
+    if reference_sql.contains("WITH RECURSIVE") {
+        obs.label(if reference_sql.contains("+ (100)") { "recursive-cte/self-referencing" } else { "recursive-cte/keyword-only" });
+    }
     let partial = match st {
         Stmt::Select(_) => affected > 0 && affected < 36,
         _ => affected > 0 && affected < 10,
@@ -277,7 +280,7 @@ Non-trivial = at least 3 clause kinds and an effect that is neither empty nor ev
         .into();
     ctx.assumptions.push(format!("SQLite engine {} (system library) is the oracle's executor; the reference rendering is written in stmt_ref.rs", crate::sqlite::version()));
     ctx.domain_restrictions.push("IS / IS NOT: a boolean right operand is written as the keyword in both modes (the bound form is the known finding is-with-bound-boolean, demonstrated by its own reproducer, not re-searched); other constant right operands are NULL".into());
-    ctx.domain_restrictions.push("engine-imposed: LIMIT / OFFSET always with a total ORDER BY; set-operation arms without ORDER BY / LIMIT; ORDER BY of a compound select names result columns; window ORDER BY made total; INSERT..SELECT + ON CONFLICT gets a WHERE; recursive CTEs, LATERAL, locks, SEARCH / CYCLE are not SQLite features".into());
+    ctx.domain_restrictions.push("engine-imposed: LIMIT / OFFSET always with a total ORDER BY; set-operation arms without ORDER BY / LIMIT; ORDER BY of a compound select names result columns; window ORDER BY made total; INSERT..SELECT + ON CONFLICT gets a WHERE; LATERAL, locks, SEARCH / CYCLE are not SQLite features; a recursive CTE has one fixed terminating shape (base rows UNION ALL one more row per base row)".into());
     let n = ctx.tier.pick(250_000, 5_000_000);
     ctx.run_proptest("statements", n, &case_strategy, &check);
 }
